@@ -122,6 +122,8 @@ static void run_c01 (void)
 /* =================================================================== C04 */
 
 /* write N frames in the given split (0: one call, 1: 1 + rest, 2: B-1 + rest [B<=1: 2 + rest]) ; returns frames accepted, -1 open failure */
+static int c04_trailer ;	/* a string set after the audio: the container's string chunk then lies behind the audio data */
+
 static long c04_write (const Fmt *f, int ch, int rate, sf_count_t open_frames, int type, long N, int split, int B, int *close_rc)
 {	SF_INFO info ; SNDFILE *sf ; long items = N * ch, done = 0, first ; void *buf ;
 	md_reset (&rt_dev) ;
@@ -140,6 +142,7 @@ static long c04_write (const Fmt *f, int ch, int rate, sf_count_t open_frames, i
 	{	sf_count_t w = vl_write (sf, type, 0, (char *) buf + first * ch * type_size [type], (N - first) * ch) ;
 		done += w > 0 ? w / ch : 0 ;
 		}
+	if (c04_trailer) INLIB (sf_set_string (sf, SF_STR_COMMENT, "a comment that lies behind the audio")) ;
 	INLIB (*close_rc = sf_close (sf)) ;
 	free (buf) ;
 	return done ;
@@ -254,6 +257,11 @@ void run_c04 (void)
 					if (lens [li] < 2 && split > 0) continue ;
 					if (vl_case ("C04 fmt=%s ch=%d rate=%d openframes=0 type=%s N=%ld split=%d", f->name, ch, rate, type_names [type], lens [li], split))
 					{	vl_root_count (f->name) ; c04_case (f, ch, rate, 0, type, lens [li], split) ; }
+					{	int mj = f->format & SF_FORMAT_TYPEMASK ;
+						if ((mj == SF_FORMAT_WAV || mj == SF_FORMAT_WAVEX || mj == SF_FORMAT_RF64 || mj == SF_FORMAT_AIFF || mj == SF_FORMAT_CAF) && split != 1 &&
+							vl_case ("C04 fmt=%s ch=%d rate=%d openframes=0 type=%s N=%ld split=%d trailer", f->name, ch, rate, type_names [type], lens [li], split))
+						{	vl_root_count (f->name) ; c04_trailer = 1 ; c04_case (f, ch, rate, 0, type, lens [li], split) ; c04_trailer = 0 ; }
+						}
 					}
 			for (int ri = 0 ; rates [ri] && f->rate_kind != RATE_NONE ; ri++)
 				for (int n = 0 ; n <= 3 ; n += 3)
